@@ -132,6 +132,12 @@ Proof. exact (dictionary_id_accessor C12_fact_layout). Qed.
 Print Assumptions C12_dictionary_id_accessor.
 
 (* ---- inline split references (composition with C05's resolution model, Model/CodecResolve.v) ---- *)
+(* shapes re-read from lexicon_set.rs / build/lexicon.rs / build/parse.rs: each of the three reference lists is re-stamped under
+   its own subset flag (behaviour: every word is read under single-list subsets by the correspondence run); a split unit is a
+   word id literal only when the whole unit matches ^U?[0-9]+$ (words named `5`, `U1` are referenced inline by generated rows) *)
+Fact C12_fact_reference_shapes : reference_shapes_ok = true.
+Proof. vm_compute. reflexivity. Qed.
+
 (* a user dictionary loaded as dictionary d whose row holds the inline reference (surface, POS, reading): the loaded word
    reports for it (d, i) with row i of the SAME dictionary the first row that has exactly these three, or -- only when no
    row of the dictionary has them -- (0, i) with system word i the first that has them; in particular never a word of
